@@ -220,8 +220,10 @@ impl WExec {
 pub fn depth_limit(hist: i32) -> i64 {
     match hist {
         -1 => 1,
-        0 => 32,
-        d => std::cmp::min(d as i64, 32),
+        // KeepAll: no History depth forces anything out (the code's internal allowance of 32 acknowledged
+        // samples is below this, so the bound clause is vacuous and the retain clause is strict)
+        0 => 1_000_000,
+        d => d as i64,
     }
 }
 
